@@ -18,7 +18,7 @@ from ..ref import scores as RS
 from . import common
 
 ID = "C17"
-RUNS = {"quick": 1500, "thorough": 100000}
+RUNS = {"quick": 1200, "thorough": 100000}
 TIME = {"quick": 80, "thorough": 1500}
 N1 = {"quick": 1200, "thorough": 3000}
 WALL = 240.0
@@ -46,7 +46,8 @@ def gen_profile(rng, m_max=3):
         perm = rng.sample(names, k)
         r = [[c] for c in perm]
         if k >= 2 and rng.random() < 0.35:
-            r = [sorted(perm[:2])] + r[2:]
+            t = 2 if k < 3 or rng.random() < 0.5 else rng.randint(3, k)  # two-way and larger first-place ties
+            r = [sorted(perm[:t])] + r[t:]
         bs.append({"r": r, "w": canon.fs(G.gen_weight(rng, wf))})
     return {"candidates": names, "ballots": bs}
 
@@ -167,7 +168,7 @@ def audit_run(case, o, e):
         uni = [x for x in ens if x["kind"] in ("uniform", "random", "np.uniform")]
         cho = [x for x in ens if x["kind"] == "choices"]
         npc = [x for x in ens if x["kind"] == "np.choice"]
-        smp = [x for x in ens if x["kind"] == "sample"]
+        smp = [x for x in ens if x["kind"] in ("sample", "shuffle")]  # a uniform permutation either way
         exp_ballots = sorted([[canon.cballot(b)["r"], canon.fs(b.weight)] for b in pin.ballots])
         if rule == "BoostedRandomDictator":
             if len(uni) != 1 or uni[0]["pop"] != [0, 1]:
@@ -205,6 +206,9 @@ def audit_run(case, o, e):
             bad.append(("dictator-draw", f"round {r}: expected one random.choices draw of the dictator ballot, saw {len(cho)}"))
             continue
         en = cho[0]
+        if en["pop"] and not all(isinstance(x, (str, dict)) for x in en["pop"]):
+            info["opaque"] = info.get("opaque", 0) + 1  # e.g. indices: the law is then judged by the frequency arm only
+            continue
         if en["pop"] and all(isinstance(x, str) for x in en["pop"]):
             # an implementation drawing the candidate directly: weights must be proportional to the first-place shares
             law = rd_first_law(J)
@@ -235,6 +239,18 @@ def audit_run(case, o, e):
                 bad.append(("tie-permutation", f"round {r}: untied first place {first} but a tiebreak draw was made"))
         if winner != [w]:
             bad.append(("dictator-winner", f"round {r}: dictator ballot {en['out'][0]['r']} (resolved first choice {w}) but elected {winner}"))
+    # "for each seat in turn ... the current first-place weight": the profile a seat is drawn from must be the previous
+    # one with exactly the winner struck out (ties among the others stay ties)
+    for r, (pin, prev_c, pout) in enumerate(rec, start=1):
+        if r >= len(st):
+            break
+        winner = [c for g in st[r].elected for c in g]
+        if len(winner) != 1:
+            continue
+        exp = canon.pmap(canon.build_profile(remove(canon.profile_json(pin), winner[0])))
+        if canon.pmap(pout) != exp:
+            bad.append(("successor", f"round {r}: after electing {winner[0]} the ballots are {canon.cpmap(pout)} but striking the winner from the previous ballots gives {canon.cpmap(canon.build_profile(remove(canon.profile_json(pin), winner[0])))}"))
+            break
     return bad, info
 
 
